@@ -29,7 +29,7 @@ pub struct Slot {
 }
 pub static SLOTS: [Mutex<Option<Slot>>; WORKERS] = [const { Mutex::new(None) }; WORKERS];
 
-fn cpu_seconds_of(pid: u32) -> Option<f64> {
+pub fn cpu_seconds_of(pid: u32) -> Option<f64> {
     let s = std::fs::read_to_string(format!("/proc/{}/stat", pid)).ok()?;
     let rest = s.rsplit(')').next()?;
     let f: Vec<&str> = rest.split_whitespace().collect();
@@ -56,6 +56,7 @@ fn confirm_in_child(prop: &str, file: &Path, budget_cpu_s: f64) -> Option<bool> 
         .arg("replay")
         .arg(prop)
         .arg(file)
+        .env("DLTVERIF_INNER", "1")
         .stdout(std::process::Stdio::null())
         .stderr(std::process::Stdio::null())
         .spawn()
